@@ -14,21 +14,31 @@ class _State:
     armed = False
     count = 0
     fail_at = None      # index of the comparison that raises
-    hook_at = None      # index of the comparison that calls hook()
+    hook_at = ()        # indices of the comparisons that call hook()
     hook = None
-    fired = False
+    fired = False           # the last requested interception point was reached
+    fault_fired = False
+    hooks_fired = 0
 
 
 S = _State()
 
 
 def arm(fail_at=None, hook_at=None, hook=None):
+    """hook_at: an index or a collection of indices."""
     S.armed = True
     S.count = 0
     S.fail_at = fail_at
-    S.hook_at = hook_at
+    if hook_at is None:
+        S.hook_at = ()
+    elif isinstance(hook_at, int):
+        S.hook_at = (hook_at,)
+    else:
+        S.hook_at = tuple(hook_at)
     S.hook = hook
     S.fired = False
+    S.fault_fired = False
+    S.hooks_fired = 0
 
 
 def disarm():
@@ -42,9 +52,12 @@ def _point():
     S.count = n + 1
     if n == S.fail_at:
         S.fired = True
+        S.fault_fired = True
         raise CmpFault(n)
-    if n == S.hook_at:
-        S.fired = True
+    if n in S.hook_at:
+        S.hooks_fired += 1
+        if S.fail_at is None and S.hooks_fired == len(S.hook_at):
+            S.fired = True
         # the hook runs foreign code inside the operation; it must not be intercepted itself
         S.armed = False
         try:
